@@ -20,7 +20,7 @@ RLIMIT_MSG = 'Resource limit (rlimit) exceeded'
 
 def run_verus(path, rlimit=100, timeout=600, extra=None, multiple_errors=8):
     cmd = ['verus', path, '--output-json', '--time', '--triggers-mode', 'silent',
-           '--rlimit', str(rlimit), '--multiple-errors', str(multiple_errors), '--num-threads', '4'] + (extra or [])
+           '--rlimit', str(rlimit), '--multiple-errors', str(multiple_errors), '--num-threads', '6'] + (extra or [])
     t0 = time.time()
     try:
         p = subprocess.run(cmd, stdout=subprocess.PIPE, stderr=subprocess.PIPE, text=True, timeout=timeout,
